@@ -165,9 +165,10 @@ func ruleTimestampLookupShapes(c *eng.Ctx) {
 		}
 		c.Check(okRun, k+" searches entries only after a successful segment search", p.Pos(fn.Pos()), "findEntryByTimestamp behind err == nil of findSegmentIndexByTimestamp", k+" goes on to search entries although the segment search failed: the index it uses is meaningless")
 		// tolerated search failures: "no such entry" and EOF only — every other error is returned
-		tolerated := append(eng.CmpEdges(fn, errOf, eng.Global(cl+"ErrEntryNotFound"), eng.EQ), eng.CmpEdges(fn, errOf, eng.Global("io.EOF"), eng.EQ)...)
+		// (one matcher for both sentinels: `err == ErrEntryNotFound || err == io.EOF` computed into a flag is the same test)
+		tolerated := eng.CmpEdges(fn, errOf, eng.Or(eng.Global(cl+"ErrEntryNotFound"), eng.Global("io.EOF")), eng.EQ)
 		found := eng.CmpEdges(fn, errOf, eng.NilConst, eng.EQ)
-		okTol := len(tolerated) >= 2 && len(found) >= 1
+		okTol := len(tolerated) >= 1 && len(found) >= 1 && eng.CmpExists(fn, errOf, eng.Global(cl+"ErrEntryNotFound")) && eng.CmpExists(fn, errOf, eng.Global("io.EOF"))
 		c.Check(okTol, k+" tells a missing entry from a failed read", p.Pos(fn.Pos()), "err == nil / ErrEntryNotFound / io.EOF are told apart", k+" no longer distinguishes `no entry at or after the timestamp` from a read error")
 		// polarity: what follows a missing entry (the next segment / the segment's last offset) is reached only over a
 		// tolerated error; a wrapped error is returned only over the edges where the error is neither of the two
